@@ -454,7 +454,10 @@ func visitInstr(fr *frame, instr ssa.Instruction) continuation {
 		fr.env[instr] = newOmap(instr.Type().Underlying().(*types.Map).Key())
 
 	case *ssa.Range:
-		fr.env[instr] = rangeIter(fr.get(instr.X), instr.X.Type())
+		if m, ok := fr.get(instr.X).(*omap); ok && m != nil {
+			ps.onRead(fr, m.cell())
+		}
+		fr.env[instr] = rangeIter(fr, fr.get(instr.X), instr.X.Type())
 
 	case *ssa.Next:
 		fr.env[instr] = fr.get(instr.Iter).(iter).next()
@@ -508,6 +511,7 @@ func visitInstr(fr *frame, instr ssa.Instruction) continuation {
 		if m == nil {
 			panic(targetPanic{iface{fr.i.runtimeErrorString, "assignment to entry in nil map"}})
 		}
+		ps.onWrite(fr, m.cell())
 		m.insert(ps, fr.get(instr.Key), fr.get(instr.Value))
 
 	case *ssa.TypeAssert:
